@@ -102,6 +102,12 @@ impl Searcher {
             }
         }
 
+        // The time limit can expire before even the first iteration completes (a zero or
+        // tiny budget); a position with legal moves must still be answered with one
+        if best_move.is_none() {
+            best_move = self.move_generator.generate_moves(board).first().copied();
+        }
+
         (best_score, best_move)
     }
 
